@@ -39,6 +39,8 @@ type SEnv struct {
 	unfoldDepth int
 	nq          *int
 	proving     bool
+	// binvs: inside a quantifier, type invariants of heap reads that mention a bound variable (see heapReadInv)
+	binvs *[]*Term
 }
 
 func (vc *VC) newEnv(cur, old *State, pkgPath string) *SEnv {
@@ -215,6 +217,9 @@ func (env *SEnv) tr(e *SExpr) *SVal {
 		return &SVal{T: Ite(c.T, a.T, b.T), Go: a.Go}
 	case EQuant:
 		ne := env.child()
+		if ne.binvs == nil {
+			ne.binvs = &[]*Term{}
+		}
 		var bound []*Term
 		var ranges []*Term
 		for _, qv := range e.Vars {
@@ -459,8 +464,30 @@ func (env *SEnv) binary(e *SExpr) *SVal {
 	tb := types.Typ[types.Bool]
 	switch e.Op {
 	case "&&", "||", "==>", "<==>":
+		n0 := 0
+		if env.binvs != nil {
+			n0 = len(*env.binvs)
+		}
 		a := env.materialize(env.tr(e.X), nil)
+		if env.binvs != nil && e.Op == "==>" {
+			// invariants of reads in the antecedent are not guarded by anything: drop them
+			*env.binvs = (*env.binvs)[:n0]
+		}
 		b := env.materialize(env.tr(e.Y), nil)
+		if env.binvs != nil && e.Op == "==>" && b.T.S.K == KBool {
+			// heap reads under the guard that mention a bound variable: their type invariants (pointers and slices refer to
+			// allocated objects, integers are in range) hold for every guarded instance. They strengthen an assumed
+			// formula and weaken a goal; both are sound because the invariants hold in every well-typed heap.
+			invs := append([]*Term{}, (*env.binvs)[n0:]...)
+			*env.binvs = (*env.binvs)[:n0]
+			if len(invs) > 0 {
+				if env.proving {
+					b = &SVal{T: Implies(And(invs...), b.T), Go: b.Go}
+				} else {
+					b = &SVal{T: And(append(invs, b.T)...), Go: b.Go}
+				}
+			}
+		}
 		if a.T.S.K != KBool || b.T.S.K != KBool {
 			sfail("logical operator %s on non-bool operands in %s", e.Op, e)
 		}
@@ -874,6 +901,20 @@ func (env *SEnv) builtin(name string, args []*SExpr, e *SExpr) *SVal {
 		need(1)
 		x := env.materialize(env.tr(args[0]), nil)
 		return &SVal{T: vc.slArr(x.T), Go: types.Typ[types.Int]}
+	case "cell":
+		// cell(s, j): element j of the array backing slice s, indexed from the start of the array (s[k] == cell(s, off(s)+k));
+		// stating a range property over cells makes it carry over to sub-slices without index arithmetic
+		need(2)
+		x := env.materialize(env.tr(args[0]), nil)
+		xt, ok := x.Go.Underlying().(*types.Slice)
+		if !ok {
+			sfail("cell on non-slice")
+		}
+		i := env.materialize(env.tr(args[1]), types.Typ[types.Int])
+		key, _ := vc.elemKey(xt.Elem())
+		r := &SVal{T: Select(Select(vc.heapGet(env.cur, key), vc.slArr(x.T)), foldInt(vc.toIdx(i.T, i.Go))), Go: xt.Elem()}
+		env.heapReadInv(r)
+		return r
 	case "off":
 		need(1)
 		x := env.materialize(env.tr(args[0]), nil)
@@ -1184,6 +1225,18 @@ func (env *SEnv) heapReadInv(v *SVal) {
 		}
 	}
 	if mentionsBound(v.T) {
+		if env.binvs != nil {
+			inv := vc.typeInv(v.T, v.Go, env.cur)
+			if !inv.IsTrue() {
+				is := inv.String()
+				for _, x := range *env.binvs {
+					if x.String() == is {
+						return
+					}
+				}
+				*env.binvs = append(*env.binvs, inv)
+			}
+		}
 		return
 	}
 	key := "inv:" + v.T.String() + "@" + vc.wm(env.cur).String()
